@@ -769,6 +769,28 @@ class C16(LiftProp):
             "sizes, or the file redeclares a size; distinct by file")
 
     def cases(self, rng, tier):
+        # a fixed number of files per run (not a matter of chance) in which a block is enlarged by g and the gaps behind
+        # it are reduced by g modulo 2^64: wrap-congruent, ill-formed, to be refused
+        made = 0
+        for case in LiftProp.cases(self, random.Random(rng.random()), tier):
+            multi = [i_ for i_, c_ in enumerate(case["chains"]) if len(c_["blocks"]) >= 2]
+            if not multi:
+                continue
+            c = copy.deepcopy(case)
+            k = rng.choice(multi)
+            bl = c["chains"][k]["blocks"]
+            j = rng.randrange(len(bl) - 1)
+            g = rng.choice([1, 2, 7, 1000, max(1, c["chains"][k]["ref"][1]), max(1, c["chains"][k]["qry"][1])])
+            bl[j][0] = min(U64, bl[j][0] + g)
+            bl[j][1] = (bl[j][1] - g) % (2 ** 64)
+            bl[j][2] = (bl[j][2] - g) % (2 ** 64)
+            c["kind"] = "overshoot"
+            for ch_ in c["chains"]:
+                c["ivs"].append([ch_["ref"][0], ch_["ref"][2], 0, min(U64, ch_["ref"][1] + 2000)])
+            yield c
+            made += 1
+            if made >= (12 if tier == "quick" else 400):
+                break
         for case in LiftProp.cases(self, rng, tier):
             if rng.random() < 0.2 and case["chains"]:
                 c = copy.deepcopy(case)
